@@ -843,7 +843,9 @@ class Machine:
     # ---- x87 ---------------------------------------------------------------------------
     def _fld(self, s, ops, prec):
         v = self.load(s, ops[0], prec if prec != 80 else 128)
-        if v[0] == 'fval' and v[1] == prec:
+        if prec == 80 and v[0] == 'f80lo' and isinstance(v[1], tuple) and v[1][0] == 'fval' and v[1][1] == 80:
+            s.st.append(v[1][2])        # reload of an 80-bit value spilled to a pushed 16-byte slot by fstpt
+        elif v[0] == 'fval' and v[1] == prec:
             s.st.append(v[2] if prec == 80 else ('f2f', prec, 80, v[2]))
         elif v[0] == 'mem':
             s.st.append(('fmem', prec, v[2]) if prec == 80 else ('f2f', prec, 80, ('fmem', prec, v[2])))
@@ -925,6 +927,16 @@ class Machine:
 
     def i_fchs(self, s, ops):
         s.st.append(('fneg', 80, self._pop87(s)))
+
+    def i_fxch(self, s, ops):
+        i = ops[0][1] if (ops and ops[0][0] == 'st') else 1
+        if not ops or ops[0][0] == 'st':
+            if len(s.st) <= i:
+                raise Unknown('fxch %st(i) beyond the abstract x87 stack')
+            if i:
+                s.st[-1], s.st[-1 - i] = s.st[-1 - i], s.st[-1]
+            return
+        raise Unknown('fxch operand')
 
     def _fcomip(self, s, ops):
         a = self._pop87(s)
